@@ -23,7 +23,7 @@ ASSUMPTIONS = ["mazes in which every row and column index occurs in some connect
 NSHARDS = {"quick": 16, "thorough": 16}
 MODES = ["AOTP_UT_rasterized", "AOTP_UT_uniform", "AOTP_CTT_indexed"]
 KINDS = ["LatticeMaze", "TargetedLatticeMaze", "SolvedMaze"]
-THRESHOLDS = {"quick": {"c07:rt:via-other-class": 1500, **{f"c07:rt:{m}:{k}:{f}": 20 for m in MODES for k in KINDS for f in ("list", "str")},
+THRESHOLDS = {"quick": {"c07:rt:via-other-class": 1500, "c07:dataset-config-count-differs-from-list": 20, **{f"c07:rt:{m}:{k}:{f}": 20 for m in MODES for k in KINDS for f in ("list", "str")},
                         **{f"c07:rt:modular:{m}:{k}": 20 for m in MODES for k in KINDS},
                         "c07:grid>=11": 50, "c07:one-cell-solution": 20, "c07:two-cell-solution": 20, "c07:legacy-vs-modular": 400,
                         "c07:dataset-as_tokens": 100, "c07:mgs:None": 100, "c07:mgs:n": 100, "c07:mgs:50": 100}}
@@ -193,11 +193,15 @@ def run(ctx):
             items.append(lib.solved(cl, sol))
         with warnings.catch_warnings():
             warnings.simplefilter("ignore")
-            ds = MazeDataset(MazeDatasetConfig(name=f"c07-{j}", grid_n=g, n_mazes=k), items)
+            # the config's maze count need not equal the list (hand-made lists, mazes appended later): the tokenization follows the list
+            n_cfg = [k, 1, k + 3, max(k - 1, 0)][j % 4]
+            if n_cfg != k:
+                ctx.tally("c07:dataset-config-count-differs-from-list")
+            ds = MazeDataset(MazeDatasetConfig(name=f"c07-{j}", grid_n=g, n_mazes=n_cfg), items)
             mode = TokenizationMode[MODES[j % 3]]
             tok = [MazeTokenizer(tokenization_mode=mode, max_grid_size=g), MazeTokenizerModular.from_legacy(mode), mode][j % 3] if j % 3 != 2 else \
                 MazeTokenizer(tokenization_mode=mode, max_grid_size=None)
-            for limit in (None, 0, 1, k):
+            for limit in (None, 0, 1, k, k + 2, max(k - 1, 0)):
                 for join in (False, True):
                     case = dict(j=j, g=g, k=k, limit=limit, join=join, mode=mode.value)
                     with ctx.guard("C07/dataset-as_tokens", case):
